@@ -7,10 +7,10 @@ Import ListNotations.
 From PV Require Import C22.Model.
 Open Scope N_scope.
 
-Lemma covers_sound : forall M e h n, valid_cfg M e -> covers h n = true ->
+Lemma covers_sound : forall mlo M e h n, valid_cfg M e -> mlo <= M -> covers mlo h n = true ->
   eval_sd M e n <= M -> eval_sd M e n <= N.min (eval_sd M e h) M.
 Proof.
-  intros M e h n [HM He] Hc Hn.
+  intros mlo M e h n [HM He] Hmlo Hc Hn.
   destruct n as [m | b' v' m | | ].
   - destruct m as [|p].
     + cbn [eval_sd]. lia.
@@ -18,7 +18,7 @@ Proof.
       * apply N.leb_le in Hc. lia.
       * apply N.leb_le in Hc. specialize (He v). destruct b; lia.
       * lia.
-      * discriminate.
+      * apply N.leb_le in Hc. lia.
   - cbn [covers] in Hc. destruct h as [k | b v k | | ]; cbn [eval_sd] in *; try discriminate.
     + apply andb_prop in Hc. destruct Hc as [Hc Hm]. apply andb_prop in Hc. destruct Hc as [Hb Hv].
       apply N.leb_le in Hm. apply N.eqb_eq in Hv. apply Bool.eqb_prop in Hb. subst. destruct b'; lia.
@@ -27,13 +27,14 @@ Proof.
   - cbn [covers] in Hc. destruct h; cbn [eval_sd] in *; try discriminate; lia.
 Qed.
 
-Lemma ge1_sound : forall M e d, valid_cfg M e -> ge1 d = true -> 1 <= N.min (eval_sd M e d) M.
+Lemma ge1_sound : forall mlo M e d, valid_cfg M e -> mlo <= M -> ge1 mlo d = true ->
+  1 <= N.min (eval_sd M e d) M.
 Proof.
-  intros M e d [HM He] H. destruct d as [n | b v n | | ]; cbn [ge1 eval_sd] in *.
+  intros mlo M e d [HM He] Hmlo H. destruct d as [n | b v n | | ]; cbn [ge1 eval_sd] in *.
   - apply N.leb_le in H. lia.
   - specialize (He v). destruct b; lia.
   - lia.
-  - discriminate.
+  - apply N.leb_le in H. lia.
 Qed.
 
 Definition gamma (M : N) (e : env) (a : astate) (s : fstate) : Prop :=
@@ -42,24 +43,24 @@ Definition gamma (M : N) (e : env) (a : astate) (s : fstate) : Prop :=
   (rok a = true -> fr s <= fa s) /\
   fr s <= M /\ fa s <= M /\ (1 <= fa s -> fann s = true).
 
-Lemma covered_sound : forall M e a s n, valid_cfg M e -> gamma M e a s ->
-  covered (lb a) n = true -> eval_sd M e n <= M -> eval_sd M e n <= fa s.
+Lemma covered_sound : forall mlo M e a s n, valid_cfg M e -> mlo <= M -> gamma M e a s ->
+  covered mlo (lb a) n = true -> eval_sd M e n <= M -> eval_sd M e n <= fa s.
 Proof.
-  intros M e a s n Hv Hg Hc Hn. destruct Hg as [Hlb _].
-  assert (Hz : n = SLit 0 \/ existsb (fun h => covers h n) (lb a) = true).
+  intros mlo M e a s n Hv Hmlo Hg Hc Hn. destruct Hg as [Hlb _].
+  assert (Hz : n = SLit 0 \/ existsb (fun h => covers mlo h n) (lb a) = true).
   { unfold covered in Hc. destruct n as [m| | | ]; auto. destruct m; auto. }
   destruct Hz as [-> | Hex].
   - cbn [eval_sd]. lia.
   - apply existsb_exists in Hex. destruct Hex as [h [Hin Hcov]].
-    pose proof (covers_sound M e h n Hv Hcov Hn). specialize (Hlb h Hin). lia.
+    pose proof (covers_sound mlo M e h n Hv Hmlo Hcov Hn). specialize (Hlb h Hin). lia.
 Qed.
 
-Lemma ge1_list_sound : forall M e a s, valid_cfg M e -> gamma M e a s ->
-  existsb ge1 (lb a) = true -> fann s = true.
+Lemma ge1_list_sound : forall mlo M e a s, valid_cfg M e -> mlo <= M -> gamma M e a s ->
+  existsb (ge1 mlo) (lb a) = true -> fann s = true.
 Proof.
-  intros M e a s Hv Hg Hex. apply existsb_exists in Hex. destruct Hex as [h [Hin Hg1]].
+  intros mlo M e a s Hv Hmlo Hg Hex. apply existsb_exists in Hex. destruct Hex as [h [Hin Hg1]].
   destruct Hg as [Hlb [_ [_ [_ [_ Hinv]]]]]. apply Hinv.
-  pose proof (ge1_sound M e h Hv Hg1). specialize (Hlb h Hin). lia.
+  pose proof (ge1_sound mlo M e h Hv Hmlo Hg1). specialize (Hlb h Hin). lia.
 Qed.
 
 Lemma eval_max_ge : forall M e ds d, In d ds -> eval_sd M e d <= eval_max M e ds.
@@ -79,14 +80,15 @@ Proof.
 Qed.
 
 (* one step *)
-Lemma step_sound : forall M e a s st a', valid_cfg M e -> gamma M e a s -> astep a st = Some a' ->
+Lemma step_sound : forall mlo M e a s st a', valid_cfg M e -> mlo <= M -> gamma M e a s ->
+  astep mlo a st = Some a' ->
   match step M e s (amk a) st with
   | Ok s' am' => gamma M e a' s' /\ am' = amk a'
   | Invalid => True
   | DirtyRead | RecordedCleaner => False
   end.
 Proof.
-  intros M e a s st a' Hv Hg Hst.
+  intros mlo M e a s st a' Hv Hmlo Hg Hst.
   pose proof Hg as Hg0.
   destruct Hg as [Hlb [Hann [Hrok [HrM [HaM Hinv]]]]].
   destruct st as [ds checked | reads write | | d]; cbn [astep] in Hst.
@@ -97,7 +99,7 @@ Proof.
     set (dd := N.min (eval_max M e ds) M).
     assert (Hcase : forall s', (fa s' = fa s /\ fr s' = fr s /\ fann s' = fann s /\ dd <= fa s) \/
                                (fa s' = N.max (fa s) dd /\ fr s' = N.max (fr s) dd /\ fann s' = true /\ 1 <= dd) ->
-                               gamma M e {| lb := ds ++ lb a; annk := annk a || existsb ge1 ds; rok := true; amk := false |} s').
+                               gamma M e {| lb := ds ++ lb a; annk := annk a || existsb (ge1 mlo) ds; rok := true; amk := false |} s').
     { intros s' Hc. unfold gamma; cbn [lb annk rok amk].
       assert (Hdd : dd <= fa s') by (destruct Hc as [[? [? [? ?]]] | [? [? [? ?]]]]; lia).
       assert (Hge : fa s <= fa s') by (destruct Hc as [[? [? [? ?]]] | [? [? [? ?]]]]; lia).
@@ -108,7 +110,7 @@ Proof.
       - intros Hk. apply orb_prop in Hk. destruct Hk as [Hk | Hk].
         + destruct Hc as [[? [? [-> ?]]] | [? [? [-> ?]]]]; auto.
         + apply existsb_exists in Hk. destruct Hk as [h [Hin Hg1]].
-          pose proof (ge1_sound M e h Hv Hg1). pose proof (eval_max_ge M e ds h Hin).
+          pose proof (ge1_sound mlo M e h Hv Hmlo Hg1). pose proof (eval_max_ge M e ds h Hin).
           destruct Hc as [[Ha' [? [-> ?]]] | [? [? [-> ?]]]]; auto.
           apply Hinv. unfold dd in *. lia.
       - intros _. destruct Hc as [[-> [-> [? ?]]] | [-> [-> [? ?]]]]; lia.
@@ -139,10 +141,10 @@ Proof.
       unfold read_valid in Evalid. apply N.leb_le in Evalid.
       apply andb_prop in Ereads. destruct Ereads as [Hcov Hna].
       unfold read_ok. apply andb_true_intro. split.
-      - apply N.leb_le. apply (covered_sound M e a s (fst rd) Hv Hg0 Hcov Evalid).
+      - apply N.leb_le. apply (covered_sound mlo M e a s (fst rd) Hv Hmlo Hg0 Hcov Evalid).
       - destruct (snd rd); cbn [negb orb] in *; auto.
         apply orb_prop in Hna. destruct Hna as [Hk | Hk]; auto.
-        apply (ge1_list_sound M e a s Hv Hg0 Hk). }
+        apply (ge1_list_sound mlo M e a s Hv Hmlo Hg0 Hk). }
     rewrite Hok. cbn [negb].
     destruct write as [[d ann]|].
     + inversion Hst; subst a'; clear Hst.
@@ -150,7 +152,7 @@ Proof.
       split; [|reflexivity]. unfold gamma; cbn [lb annk rok amk fa fr fann]. repeat split.
       * intros d0 [<- | []]. lia.
       * intros Hk. apply orb_prop in Hk. destruct Hk as [-> | Hk]; [reflexivity|].
-        pose proof (ge1_sound M e d Hv Hk). apply orb_true_iff. right. apply N.leb_le. lia.
+        pose proof (ge1_sound mlo M e d Hv Hmlo Hk). apply orb_true_iff. right. apply N.leb_le. lia.
       * discriminate.
       * exact HrM.
       * exact EM.
@@ -165,13 +167,14 @@ Proof.
     destruct (M <? eval_sd M e d) eqn:EM; [exact I|]. apply N.ltb_ge in EM.
     split; [|reflexivity]. unfold gamma; cbn [lb annk rok amk fa fr fann]. repeat split; auto; try lia.
     intros Hk. apply andb_prop in Hk. destruct Hk as [Hk1 Hk2].
-    pose proof (covered_sound M e a s d Hv Hg0 Hk2 EM) as Hd.
+    pose proof (covered_sound mlo M e a s d Hv Hmlo Hg0 Hk2 EM) as Hd.
     apply orb_prop in Hk1. destruct Hk1 as [Hk1 | Hk1].
     + specialize (Hrok Hk1). lia.
     + pose proof (has_max_sound M e a s Hg0 Hk1). lia.
 Qed.
 
-Lemma arun_sound : forall M e p a s af, valid_cfg M e -> gamma M e a s -> arun p a = Some af ->
+Lemma arun_sound : forall mlo M e p a s af, valid_cfg M e -> mlo <= M -> gamma M e a s ->
+  arun mlo p a = Some af ->
   match run M e p s (amk a) with
   | Ok s' _ => gamma M e af s'
   | Invalid => True
@@ -179,16 +182,16 @@ Lemma arun_sound : forall M e p a s af, valid_cfg M e -> gamma M e a s -> arun p
   | RecordedCleaner => rok af = false
   end.
 Proof.
-  intros M e p. induction p as [|st r IH]; intros a s af Hv Hg Hrun.
+  intros mlo M e p. induction p as [|st r IH]; intros a s af Hv Hmlo Hg Hrun.
   - cbn [arun] in Hrun. inversion Hrun; subst af. cbn [run].
     destruct (fa s <? fr s) eqn:E.
     + apply N.ltb_lt in E. destruct (rok a) eqn:Er; auto.
       destruct Hg as [_ [_ [Hrok _]]]. specialize (Hrok Er). lia.
     + exact Hg.
-  - cbn [arun] in Hrun. destruct (astep a st) as [a1|] eqn:Est; [|discriminate].
-    pose proof (step_sound M e a s st a1 Hv Hg Est) as Hs. cbn [run].
+  - cbn [arun] in Hrun. destruct (astep mlo a st) as [a1|] eqn:Est; [|discriminate].
+    pose proof (step_sound mlo M e a s st a1 Hv Hmlo Hg Est) as Hs. cbn [run].
     destruct (step M e s (amk a) st) as [s1 am1 | | | ]; try contradiction; auto.
-    destruct Hs as [Hg1 ->]. apply (IH a1 s1 af Hv Hg1 Hrun).
+    destruct Hs as [Hg1 ->]. apply (IH a1 s1 af Hv Hmlo Hg1 Hrun).
 Qed.
 
 Lemma init_gamma : forall cfg M s, init_ok cfg M s ->
@@ -200,18 +203,18 @@ Proof.
 Qed.
 
 (* never reads dirty + recorded no cleaner, for all M, extents and initial states *)
-Theorem placement_safe_ : forall cfg cont p, well_placed cfg cont p = true ->
-  forall M e s0, valid_cfg M e -> init_ok cfg M s0 ->
+Theorem placement_safe_ : forall mlo cfg cont p, well_placed mlo cfg cont p = true ->
+  forall M e s0, valid_cfg M e -> mlo <= M -> init_ok cfg M s0 ->
   match run M e p s0 false with
   | Ok s _ => fr s <= fa s /\ (cfg && cont = true -> fann s = true)
   | Invalid => True
   | DirtyRead | RecordedCleaner => False
   end.
 Proof.
-  intros cfg cont p Hwp M e s0 Hv Hi. unfold well_placed in Hwp.
-  destruct (arun p _) as [af|] eqn:Hrun; [|discriminate].
+  intros mlo cfg cont p Hwp M e s0 Hv Hmlo Hi. unfold well_placed in Hwp.
+  destruct (arun mlo p _) as [af|] eqn:Hrun; [|discriminate].
   apply andb_prop in Hwp. destruct Hwp as [Hrok Hex].
-  pose proof (arun_sound M e p _ s0 af Hv (init_gamma cfg M s0 Hi e) Hrun) as H.
+  pose proof (arun_sound mlo M e p _ s0 af Hv Hmlo (init_gamma cfg M s0 Hi e) Hrun) as H.
   cbn [amk] in H.
   destruct (run M e p s0 false) as [s am | | | ]; auto.
   - split.
@@ -219,6 +222,6 @@ Proof.
     + intros Hc. rewrite Hc in Hex. cbn [negb orb] in Hex.
       apply orb_prop in Hex. destruct Hex as [Hk | Hk].
       * destruct H as [_ [Ha _]]. apply Ha. exact Hk.
-      * apply (ge1_list_sound M e af s Hv H Hk).
+      * apply (ge1_list_sound mlo M e af s Hv Hmlo H Hk).
   - congruence.
 Qed.
